@@ -119,13 +119,13 @@ SessionImageRelabelOK(tables, u, s) ==
 
 \* tables: [pdr, far, appQer, sessQer : sets of entries]; sess: [token -> session]
 \* nothing is present for tokens that are not live sessions, and each live session is represented exactly
-\* relaxed: set of session tokens to which the named slack applies
-TablesAreImage(tables, sess, stale, relaxed) ==
+\* relaxed: set of session tokens to which the named slack applies; exempt: tokens whose entries are not judged (C01 taint)
+TablesAreImage(tables, sess, stale, relaxed, exempt) ==
   /\ \A u \in DOMAIN sess :
         \/ \E sq \in SessQerChoices(sess[u]) : SessionImageOK(tables, u, sess[u], sq)
         \/ u \in relaxed /\ SessionImageRelabelOK(tables, u, sess[u])
   /\ \A e \in tables.pdr \cup tables.far \cup tables.appQer \cup tables.sessQer :
-        e.fseid \in DOMAIN sess \/ e \in stale
+        e.fseid \in DOMAIN sess \/ e \in stale \/ e.fseid \in exempt
 
 \* nothing of ended sessions remains (C05); the same statement restricted to one token
 NoEntriesOf(tables, u) ==
